@@ -445,6 +445,16 @@ func (r *Reader) readReflect(v interface{}) error {
 			return err
 		}
 
+		if zeroWireWidth(rv.Type().Elem()) {
+			// 元素在线上不占任何字节（空结构体、只含未导出字段的结构体）：无法用剩余字节数约束长度，
+			// 改为约束其内存占用；元素即零值，无需逐个读取
+			if uint64(length)*uint64(rv.Type().Elem().Size()) > maxZeroWidthSliceBytes {
+				return fmt.Errorf("slice of %d zero-width elements exceeds %d bytes of memory", length, maxZeroWidthSliceBytes)
+			}
+			rv.Set(reflect.MakeSlice(rv.Type(), int(length), int(length)))
+			return nil
+		}
+
 		// 线上每个元素至少占一个字节：长度超过剩余字节数说明数据损坏，拒绝以避免按对端给出的长度分配内存
 		if uint64(length) > uint64(r.RemainingSize()) {
 			return fmt.Errorf("slice length %d exceeds remaining %d bytes: %w", length, r.RemainingSize(), io.ErrUnexpectedEOF)
@@ -515,6 +525,22 @@ func (r *Reader) readReflect(v interface{}) error {
 	default:
 		return fmt.Errorf("unsupported type for reading: %v", rv.Type())
 	}
+}
+
+// maxZeroWidthSliceBytes 限制由线上不占字节的元素组成的切片在内存中的大小
+const maxZeroWidthSliceBytes = 4 << 20
+
+// zeroWireWidth 判断类型 t 的值在线上是否不占任何字节：只有所有可导出字段都不占字节的结构体如此
+func zeroWireWidth(t reflect.Type) bool {
+	if t.Kind() != reflect.Struct {
+		return false
+	}
+	for i := 0; i < t.NumField(); i++ {
+		if f := t.Field(i); f.PkgPath == "" && !zeroWireWidth(f.Type) {
+			return false
+		}
+	}
+	return true
 }
 
 // ReadInto 一次性读取多个值
